@@ -82,8 +82,13 @@ CLAIMED = {
               "every supplied entry (row_column_completed, euler_rot, roll_rot), a full proper rotation is kept as written (adjust_keeps_rotation, "
               "full_rotation_kept), m ≠ 1 is rejected, three entries are a displacement; the model of normalize_transform "
               "(all forms: 3/5/6/9/12/13 entries, J placeholders, adjust_matrix) is compared with the code and the "
-              "completed matrix checked to be a rotation reproducing the supplied entries. The one-row (3) "
-              "completion, degrees → cosines, TRCL on cells, implicit surfaces 1000·cell+surface, tilted "
+              "completed matrix checked to be a rotation reproducing the supplied entries. Cells: the model of "
+              "pot_transform / cell_transform (fresh surface and cell numbers, cell references followed to any depth, "
+              "cache on or off) is replayed against every top-level call of real conversions; on it, the tree built for "
+              "a TRCL or FILL transformation holds at the image point exactly when the source tree holds at the original "
+              "point, provided each new surface has there the sense of its source (transformed_tree, transformed_cell; "
+              "that proviso is transformed_card), and no number is handed out twice (new_numbers_fresh). The one-row (3) "
+              "completion, degrees → cosines, implicit surfaces 1000·cell+surface, tilted "
               "tori and tilted cones are decided by correspondence and the Lean spec monitor, not by theorems."),
         design_ref='§8 C04'),
     'C05': dict(
@@ -234,7 +239,11 @@ CLAIMED = {
               "every token and in front; at least one blank between two literals or between #n and a literal that "
               "follow each other) to the canonical spelling (normalize_any_layout: each pass shown to rewrite only the "
               "gaps, as a function of the neighbouring tokens; subCompl shown to merge '#' with what follows); hence "
-              "layout_meaning: any legal spacing is parsed to a tree with MCNP's Boolean function."),
+              "layout_meaning: any legal spacing is parsed to a tree with MCNP's Boolean function; and about the entry "
+              "point that is compared with the code, parseGeom = get_ast (normalise, parse with the model's fuel, demand "
+              "the whole text): parseGeom_any_layout / parseGeom_meaning — the fuel 3·length+3 is proved sufficient for "
+              "every expression (SU.cost_le). A 'written' stream evaluates the volumes finally written for deep "
+              "expressions, with surface numbers in the converter's own id range, against MCNP's reading."),
         design_ref='§8 C11'),
     'C13': dict(
         technique='Lean 4 proof (fold invariant of de-duplication, fuel induction for inlining) + model↔code correspondence + Lean point monitor under several option sets',
